@@ -376,8 +376,35 @@ def max_qos_roundtrip(F, R):
          'the Maximum QoS stored after the handshake is not the one enforced: %s' % bad, sb.loc(0))
 
 
+def setters_store_verbatim(F, R):
+    """The setters the handshakes hand the negotiated limits to keep exactly the value they are given (the send window and
+    the outbound size have rules of their own: C05.cap-source, C09.contract): a setter that adjusts its argument - an
+    allowance subtracted, a clamp - makes the limit in force differ from the one announced, and a value read back through
+    the getter and stored again drifts further."""
+    import c05
+    n = 0
+    for pat, field, name in ((r'^v5::shared::MqttShared::set_receive_max$', 'receive_max', 'v5::MqttShared::set_receive_max'),
+                             (r'^v5::shared::MqttShared::set_topic_alias_max$', 'topic_alias_max', 'v5::MqttShared::set_topic_alias_max'),
+                             (r'^v5::codec::codec::Codec::set_max_inbound_size$', 'max_in_size', 'v5::Codec::set_max_inbound_size'),
+                             (r'^v3::codec::codec::Codec::set_max_size$', 'max_size', 'v3::Codec::set_max_size')):
+        b = F.one(pat)
+        stores = [(bi, t) for bi, t in b.calls_to(r'^std::cell::Cell::<T>::(set|replace)$') if (call_recv_path(b, t, 0) or ('',))[-1] == field]
+        ok = bool(stores) and all(b.must_pass({x[0] for x in stores}, rb) for rb in b.returns())
+        what = ''
+        for bi, t in stores:
+            n += 1
+            vals = c05.reaching_defs(b, t['args'][1])
+            if not vals or not all(x[0] == 'arg' for x in vals):
+                ok = False
+                what = ', '.join(sorted({x[0] for x in vals})) or 'nothing'
+        R.ob('C19.limits', '%s|stores-its-argument-unchanged' % name, ok,
+             'the setter does not store the value it is given on every path (value comes from: %s): the limit in force differs from the negotiated / announced one' % (what or 'no store on some path'), b.loc(stores[0][0]) if stores else b.loc(0))
+    R.floor('C19.limits', 'stores in the negotiated-limit setters', n, 4)
+
+
 def run(F, R):
     max_qos_roundtrip(F, R)
     gate(F, R)
     version_route(F, R)
     limits(F, R)
+    setters_store_verbatim(F, R)
